@@ -446,7 +446,7 @@ impl Prop for C11 {
         }
     }
     fn nontrivial_rule(&self) -> &'static str {
-        "scenario = 2-10 callers over 1-3 keys (Hash coarser than Eq) on clones of one CoalesceService (optionally a second service built from the same layer; optionally oneshot-style callers with the owner handle dropped after the last arrival; or all callers on the one never-cloned handle), One run in eight is a thread scenario (engine B): 2-4 shuttle threads drive clones of the real service with a no-op waker; every acquisition of a library lock, every operation on a library atomic and every verif::yield_async site is a scheduling point of the seeded thread scheduler; the clock is a paused tokio clock moved by Advance operations. lattice arrivals/latencies, ok/error/panic/never leaders, cancels of leaders and waiters at chosen polls/instants, finished futures kept alive before being dropped, clock jumps; waiters busy-poll and are handled as spinners (1ms virtual quantum). Non-trivial: some request arrived while a call for its key was in flight. Distinct = distinct event-log digest."
+        "scenario = 2-10 callers over 1-3 keys (Hash coarser than Eq; one run in twelve: 4-10 keys in flight together with an exact hash, then waiters on the oldest; one in six: leaders whose inner call sends a request for another key back through the coalescing stack from inside call()) on clones of one CoalesceService (optionally a second service built from the same layer; optionally oneshot-style callers with the owner handle dropped after the last arrival; or all callers on the one never-cloned handle), One run in eight is a thread scenario (engine B): 2-4 shuttle threads drive clones of the real service with a no-op waker; every acquisition of a library lock, every operation on a library atomic and every verif::yield_async site is a scheduling point of the seeded thread scheduler; the clock is a paused tokio clock moved by Advance operations. lattice arrivals/latencies, ok/error/panic/never leaders, cancels of leaders and waiters at chosen polls/instants, finished futures kept alive before being dropped, clock jumps; waiters busy-poll and are handled as spinners (1ms virtual quantum). Non-trivial: some request arrived while a call for its key was in flight. Distinct = distinct event-log digest."
     }
     fn real_components(&self) -> Vec<&'static str> {
         vec!["tower-resilience-coalesce (CoalesceService, CoalesceFuture incl. Drop, InFlight map)", "tokio broadcast channel, parking_lot, hashbrown"]
